@@ -9,7 +9,7 @@ import ast
 import re
 
 from ..engine.program import AnalysisError, dotted, src, walk_no_nested, call_name
-from ..engine import flow
+from ..engine import flow, symexec
 from ..engine.dataflow import local_defs
 from ..engine.linform import linform, fmt
 
@@ -512,6 +512,68 @@ def b6(prog, ctx):
     ctx.floor("B6", "insertions of annotated introns into the corrected chain", n, 3)
 
 
+IEC = "src/illumina_exon_corrector.py"
+
+
+def b7(prog, ctx):
+    """Short-read correction replaces one intron by a pair of introns around a skipped exon: the pair goes into the corrected list as
+    (left, right) and must be ordered, otherwise the blocks of the BED record overlap."""
+    f = prog.func(IEC, "IlluminaExonCorrector.correct_exons")
+    # the two names appended consecutively into the same list
+    pairs = []
+    for blk_owner in ast.walk(f):
+        body = getattr(blk_owner, "body", None)
+        if not isinstance(body, list):
+            continue
+        for a, b in zip(body, body[1:]):
+            if all(isinstance(s_, ast.Expr) and isinstance(s_.value, ast.Call) and isinstance(s_.value.func, ast.Attribute)
+                   and s_.value.func.attr == "append" and len(s_.value.args) == 1 and isinstance(s_.value.args[0], ast.Name) for s_ in (a, b)) \
+                    and src(a.value.func.value) == src(b.value.func.value):
+                pairs.append((a.value.args[0].id, b.value.args[0].id, a))
+    if len(pairs) != 1:
+        raise AnalysisError("correct_exons: expected one place where two introns are appended one after the other (found %d)" % len(pairs))
+    ln, rn, site = pairs[0]
+    # innermost loops in which both names are assigned
+    n = 0
+    for loop in [l for l in ast.walk(f) if isinstance(l, ast.For)]:
+        assigned = {t.id for a in walk_no_nested(loop) if isinstance(a, ast.Assign) for t in a.targets if isinstance(t, ast.Name)}
+        inner = [l for l in ast.walk(loop) if isinstance(l, ast.For) and l is not loop and {ln, rn} <= {t.id for a in walk_no_nested(l)
+                 if isinstance(a, ast.Assign) for t in a.targets if isinstance(t, ast.Name)}]
+        if not ({ln, rn} <= assigned) or inner:
+            continue
+        for pth in flow.block_paths(loop.body, what="correct_exons pair loop"):
+            stores = [s_ for s_ in pth.stmts() if isinstance(s_, ast.Assign) and any(isinstance(t, ast.Name) and t.id in (ln, rn) for t in s_.targets)]
+            if not stores:
+                continue
+            n += 1
+            env = symexec.run_path(pth)
+            if ln not in env or rn not in env:
+                ctx.fail("B7", stores[0], f._qualname, src(stores[0]), "only one of %s / %s is replaced on a path" % (ln, rn))
+                continue
+            a_t, b_t = src(env[ln]), src(env[rn])
+            sub = symexec.cond_substituter(pth)
+            ordered = False
+            for i, ev in enumerate(pth.events):
+                if ev[0] != "cond":
+                    continue
+                for atom, pol in flow.conjuncts(ev[1], ev[2]):
+                    atom = sub(atom, i)
+                    if isinstance(atom, ast.Compare) and len(atom.ops) == 1:
+                        l, r, op = src(atom.left), src(atom.comparators[0]), type(atom.ops[0])
+                        if not pol:
+                            op = {ast.GtE: ast.Lt, ast.LtE: ast.Gt}.get(op)
+                        if (op is ast.Lt and l == a_t + "[1]" and r == b_t + "[0]") or (op is ast.Gt and l == b_t + "[0]" and r == a_t + "[1]"):
+                            ordered = True
+            if ordered:
+                ctx.ok("B7", "%s:%d" % (IEC, stores[0].lineno), "pair (%s, %s) = (%s, %s) stored under %s[1] < %s[0]" % (ln, rn, a_t, b_t, a_t, b_t))
+            else:
+                ctx.fail("B7", stores[0], f._qualname, "%s = %s; %s = %s" % (ln, a_t, rn, b_t),
+                         "the replacement pair is stored as (%s, %s) = (%s, %s) on a path where nothing says %s ends before %s starts: the two "
+                         "introns are appended downstream-first, get_exons builds overlapping blocks and corrected_reads.bed gets an invalid "
+                         "BED12 record" % (ln, rn, a_t, b_t, a_t, b_t))
+    ctx.floor("B7", "paths storing a replacement intron pair", n, 2)
+
+
 def run(prog, ctx):
     ctx.rule("B6", "in process_events every insertion of isoform_introns[...] into new_introns either moves corrected_read_region to the "
                    "isoform region end in the same branch, or is dominated by contains*(read_region, <those introns' span>), or is the "
@@ -527,6 +589,9 @@ def run(prog, ctx):
                    "left/right event changes only that end of the read region")
     ctx.rule("B3", "BED12 columns in linear normal form: chromStart=E0-1, chromEnd=Elast[1], size=e[1]-e[0]+1, start=e[0]-E0, "
                    "blockCount=len(blocks), same list iterated")
+    ctx.rule("B7", "IlluminaExonCorrector.correct_exons: the two introns that replace one intron around a skipped exon are appended as (left, right); "
+                   "on every path that stores the pair, a path condition (aliases resolved) states left[1] < right[0]")
+    b7(prog, ctx)
     flags, presets = preset_table(prog, ctx)
     b1(prog, ctx, flags)
     b2(prog, ctx)
